@@ -69,6 +69,9 @@ def build(tier, seed):
     thorough = tier == "thorough"
     cases = [{"id": f"gen-{i}", "kind": "gen", "i": i} for i in range(300 if thorough else 24)]
     cases += [{"id": f"abort-{i}", "kind": "gen", "i": i, "abort": True} for i in range(300 if thorough else 16)]
+    # scenes whose connections follow the demultiplexer's endpoint patterns (same hosts / ports in either role, mirrored tuples, twins): a later connection's first
+    # packets must not retract or alter what an earlier cut already exported for another connection
+    cases += [{"id": f"pat-{i}", "kind": "gen", "i": i, "pattern": gen.EP_PATTERNS[i % len(gen.EP_PATTERNS)]} for i in range(360 if thorough else 36)]
     files = corpus()
     for i, f in enumerate(files if thorough else files[::3]):
         cases.append({"id": "real-" + os.path.basename(f), "kind": "real", "path": f})
@@ -80,7 +83,7 @@ def build(tier, seed):
         return {"cut_positions_run": sum(r.get("units", 0) for r in results), "real_captures_used": len([r for r in results if r["id"].startswith("real-")])}
 
     return dict(cases=cases, evalfn=evalfn, level="fault_enumeration", min_nontrivial=20, extra=extra,
-                rule="every cut position 0..N of each capture: generated scenes of 1-3 connections (every TLS version, CBC/RC4/AEAD, records spanning packets, coalesced "
+                rule="every cut position 0..N of each capture: generated scenes of 1-4 connections, single or following the demultiplexer's endpoint patterns (mirrored tuples, same hosts/ports in either role, IPv4/IPv6 twins ...) (every TLS version, CBC/RC4/AEAD, records spanning packets, coalesced "
                      "flights, QUIC with coalescing, 0-RTT and key updates, mixed and interleaved, 20% with duplicated/reordered segments, 30% with repacketized retransmissions, 30% full-duplex; 'abort' scenes: one side stops in the middle of a record and the peer's closing alert follows) and the real OpenSSL captures of "
                      "/repo/test. Class = (capture kind, flows, segmentation, cut count bucket); non-trivial = the full capture exported data and every prefix run was compared",
                 assumptions=["none beyond the output oracle; ground truth is only used for the full capture of generated scenes"])
@@ -88,13 +91,22 @@ def build(tier, seed):
 
 def eval_case(case, rng, thorough):
     if case["kind"] == "gen":
-        n = rng.choice([1, 1, 2, 3])
+        pattern = case.get("pattern")
+        n = rng.choice([2, 2, 2, 3, 4]) if pattern else rng.choice([1, 1, 2, 3])
+        eps = gen.distinct_eps(rng, n, pattern) if pattern else [None] * n
+        if pattern and rng.random() < 0.6:
+            # related initial sequence numbers (hosts that booted together, ISN generators keyed by a clock): a later connection's numbers lie shortly below or above
+            # an earlier connection's - segments filed under the wrong conversation then look like its retransmissions or like data in front of its first byte
+            for e in eps[1:]:
+                e.cisn = (eps[0].cisn + rng.choice([-1, 1]) * rng.randrange(1, 3000)) % (1 << 32)
+                e.sisn = (eps[0].sisn + rng.choice([-1, 1]) * rng.randrange(1, 3000)) % (1 << 32)
+        pquic = [0.0, 0.0, 0.4, 1.0][(case["i"] // len(gen.EP_PATTERNS)) % 4] if pattern else 0.35     # every pattern as all-TLS (twice), mixed and all-QUIC scenes
         flows = []
         for i in range(n):
-            if rng.random() < 0.35:
-                flows.append(gen.random_quic_flow(rng, i, napp=rng.choice([2, 5, 8, 14]), path_swaps=rng.choice([0, 2, 3]), bulk=rng.random() < 0.4))      # two thirds with datagrams overtaken on the path
+            if rng.random() < pquic:
+                flows.append(gen.random_quic_flow(rng, i, ep=eps[i], napp=rng.choice([2, 4, 6] if pattern else [2, 5, 8, 14]), path_swaps=rng.choice([0, 2, 3]), bulk=rng.random() < 0.4))      # two thirds with datagrams overtaken on the path
             else:
-                flows.append(gen.random_tls_flow(rng, i, nmax=8, segkinds=("mss", "random", "whole", "records", "byte2", "tail1"), min_records=2, perturb=rng.random() < 0.2,
+                flows.append(gen.random_tls_flow(rng, i, ep=eps[i], nmax=4 if pattern else 8, segkinds=("mss", "random", "whole", "records", "byte2", "tail1"), min_records=2, perturb=rng.random() < 0.2,
                                                  duplex=rng.random() < 0.3, repack=rng.random() < 0.3))
         aborted = 0
         if case.get("abort"):
@@ -105,14 +117,14 @@ def eval_case(case, rng, thorough):
                     flows.append(f)
                     aborted = 1
                     break
-        items = scene.merge(flows, rng, rng.choice(["random", "bursty", "concat"]))
+        items = scene.merge(flows, rng, rng.choice(["random", "bursty", "concat", "concat"] if pattern else ["random", "bursty", "concat"]))
         scene.stamp(items, rng)
         keys = scene.keylog_text(flows, rng)
         N = len(items)
 
         def cap(c):
             return scene.capture(items[:c])
-        label = [f.label + ":" + f.segkind + ("+aborted" if getattr(f, "aborted", False) else "") for f in flows]
+        label = [f.label + ":" + f.segkind + ("+aborted" if getattr(f, "aborted", False) else "") for f in flows] + (["pattern:" + pattern] if pattern else [])
     else:
         buf = open(case["path"], "rb").read()
         e, blocks = split_blocks(buf)
